@@ -460,6 +460,14 @@ def _problem_doc(case):
             o["parameters"] = [{"name": "zzBadParam", "in": "query", "schema": {"type": "array"}}]
         elif f == "param_dangling_ref":
             o["parameters"] = [{"$ref": "#/components/parameters/ZzNope"}]
+        elif f == "header_union_with_array":
+            o["parameters"] = [{"name": "X-Zz-Bad", "in": "header", "schema": {"oneOf": [{"type": "array", "items": {"type": "string"}}, {"type": "integer"}]}}]
+        elif f == "cookie_array":
+            o["parameters"] = [{"name": "zzBadCookie", "in": "cookie", "schema": {"type": "array", "items": {"type": "string"}}}]
+        elif f == "param_ref_chain":
+            doc["components"]["parameters"] = {"ZzRealParam": {"name": "zzreal", "in": "query", "schema": {"type": "string"}},
+                                               "ZzAliasParam": {"$ref": "#/components/parameters/ZzRealParam"}}
+            o["parameters"] = [{"$ref": "#/components/parameters/ZzAliasParam"}]
         doc["paths"][path] = {"post": o}
         if case["sibling"]:
             doc["paths"]["/fine"] = {"get": {"operationId": "fineOp", "tags": ["other"], "responses": {"200": {"description": "ok"}}}}
